@@ -230,6 +230,9 @@ func check(prop, tier string, writeLock bool, filter string) int {
 	}
 	evPath := filepath.Join(verifDir, "evidence", prop+".json")
 	replayDir := filepath.Join(verifDir, "evidence", "replay")
+	if d := os.Getenv("GOVC_REPLAY_DIR"); d != "" {
+		replayDir = d
+	}
 	_ = os.MkdirAll(replayDir, 0o755)
 	scratch, err := os.MkdirTemp("", "govc-"+prop+"-")
 	if err != nil {
@@ -615,15 +618,34 @@ func writeEvidence(path, prop, tier string, seed int, obls []*Obligation, sample
 		return
 	}
 	_ = os.MkdirAll(filepath.Dir(path), 0o755)
+	// proof obligations (must be unsat) are counted apart from the vacuity covers (guards: only a PROVED unreachability
+	// matters for them; a return recorded as unreachable in the lock is expected to be proved unreachable)
 	nObl, nDis := 0, 0
+	nCover, nCoverOpen, nCoverDead := 0, 0, 0
 	for _, o := range obls {
 		if o.Result == nil {
 			continue
 		}
+		if o.WantSat {
+			nCover++
+			if o.Result.Status == "unsat" {
+				nCoverDead++
+			} else {
+				nCoverOpen++
+			}
+			continue
+		}
 		nObl++
-		if o.WantSat && (o.Result.Status == "sat" || o.Result.Status == "unknown" || o.Result.Status == "timeout") || !o.WantSat && o.Result.Status == "unsat" {
+		if o.Result.Status == "unsat" {
 			nDis++
 		}
+	}
+	if extra == nil {
+		extra = map[string]interface{}{}
+	}
+	extra["vacuity_covers"] = map[string]int{"generated": nCover, "not_shown_vacuous": nCoverOpen, "proved_unreachable": nCoverDead}
+	if os.Getenv("GOVC_NO_EVIDENCE") != "" {
+		return
 	}
 	if samples == nil {
 		samples = []interface{}{}
